@@ -1,4 +1,5 @@
 import Cjet.Lemmas.DaemonC08Examples
+import Cjet.Props.Accept
 
 /-!
 # C08 — access control: visibility and set/call rights follow authenticated groups only
@@ -499,5 +500,12 @@ theorem is_localhost_unix :
       (a16 = [0, 0, 0, 0, 0, 0, 0, 0, 0, 0, 0xff, 0xff, 0x7f, 0, 0, 1] ∨
        a16 = [0, 0, 0, 0, 0, 0, 0, 0, 0, 0, 0, 0, 0, 0, 0, 1]) :=
   ⟨isLocalhost_unix_unnamed, isLocalhost_unix⟩
+
+/-! ### origin classification transcribed from the real is_localhost (byte patterns regenerated from linux_io.c) -/
+
+theorem accept_local_bit_exact : type_of% @Cjet.Props.Accept.local_bit_exact := @Cjet.Props.Accept.local_bit_exact
+theorem accept_local_bit_other_families : type_of% @Cjet.Props.Accept.local_bit_other_families := @Cjet.Props.Accept.local_bit_other_families
+theorem accept_local_bit_unix_unnamed : type_of% @Cjet.Props.Accept.local_bit_unix_unnamed := @Cjet.Props.Accept.local_bit_unix_unnamed
+theorem accept_local_bit_unix_pathname : type_of% @Cjet.Props.Accept.local_bit_unix_pathname := @Cjet.Props.Accept.local_bit_unix_pathname
 
 end Cjet.Daemon.C08
